@@ -97,11 +97,18 @@ CLAIMED["C06"] = C("for ALL token strings up to the bound: acceptance by the rea
                    "Bounds: full alphabet L<=6 (quick) / 8 (thorough), operator slice 7/9, bracket slice 8/10, statement slice 7/9. PLY's driver loop is "
                    "modelled by the chart rules (validated, not executed symbolically); grouping facts the property does not spell out are not demanded.",
                    LRC + " + CFG chart with operator-table filters", "DESIGN §4, §6 C06", engine="LRC")
+LXC = "SMT encoding (z3) of the lexer's master regex over symbolic character classes"
+for k, extra in (("C15", " Character level (LXC): inserting a blank / a CR before LF changes no earlier raw match, for all texts up to W characters. Text templates: 12 programs x 13 layout rewrites on the real lexer+parser (indices enumerated through the solver)."),
+                 ("C18", " Character level (LXC): %..% names run to the next %, plain names are maximal, for all texts up to W characters."),
+                 ("C20", " Character level (LXC): every line feed is consumed by the NEWLINE rule alone and no other token contains one. Text templates: stray token / truncation at every token boundary under LF, CRLF and ; variants.")):
+    CLAIMED[k]["text"] += extra
+    CLAIMED[k]["technique"] += "; " + LXC
+    CLAIMED[k]["engine"] = CLAIMED[k].get("engine", "XH") + "+LXC"
 for k, extra in (("C15", " Token level (LRC): acceptance invariance of trailing commas, redundant parentheses, blank statements and DOT/PIPE over all token strings up to the bound."),
                  ("C16", " Token level (LRC): every token string up to the bound is accepted xor stops at exactly one error configuration handled by p_error(token or None)."),
                  ("C20", " Token level (LRC): the token handed to p_error has no accepted continuation, for all token strings up to the bound.")):
     CLAIMED[k]["text"] += extra
-    CLAIMED[k]["engine"] = "XH+LRC"
+    CLAIMED[k]["engine"] = CLAIMED[k].get("engine", "XH") + "+LRC"
     CLAIMED[k]["technique"] += "; " + LRC
 NOT_YET = {}
 NA = {}
@@ -142,6 +149,8 @@ def main():
              "kind_free_text": "CrossHair 0.0.110 symbolic execution (z3) of the real Python functions from a snapshot of /repo"},
             {"name": "LRC", "path": "sqv/lrc.py", "serves_properties": sorted(k for k, v in CLAIMED.items() if "LRC" in v.get("engine", "XH")),
              "kind_free_text": "z3 chart encoding of the real LALR(1) tables (regenerated from the snapshot) over symbolic token strings"},
+            {"name": "LXC", "path": "sqv/lxc.py", "serves_properties": sorted(k for k, v in CLAIMED.items() if "LXC" in v.get("engine", "XH")),
+             "kind_free_text": "z3 encoding of the lexer's master regular expression (leftmost-first backtracking unfolded) over symbolic character classes"},
         ],
         "checks": checks,
         "not_applicable": na,
